@@ -8,10 +8,8 @@ CONSTANTS
   StartNrs = {0, 1}
   Shorts = {0, 1}
   NSeg = 5
-  Fixed = TRUE
+  Arith = "orig"
 INVARIANT InvTune
 INVARIANT InvKeep
 INVARIANT InvGrid
 INVARIANT InvTime
-INVARIANT InvTimeExactShift
-INVARIANT InvManifest
